@@ -1,4 +1,6 @@
 """C12 - every emitted command is a well-formed, device-acceptable frame; message ids advance by one."""
+import asyncio
+
 from . import appfault
 from .common import REAL_BASE, STUB_BASE, Result, Space, SimDeadlock, SimStepLimit
 from .session import Session
@@ -57,6 +59,18 @@ def run(plan):
                 continue
             if kind == "beep":
                 ac.beep = op["value"]
+                continue
+            if kind == "concurrent":
+                # two device objects in one process operate at the same time (they share the id counter)
+                other = s.clients[1]
+                dev.script = [{"lat": 1 / 512}, {}, {"lat": 1 / 256}, {}, {}, {"lat": 1 / 512}, {}, {}]
+                ra, rb = await asyncio.gather(_cap(w, ac.refresh()), _cap(w, other.refresh()))
+                dev.script = []
+                for r in (ra, rb):
+                    if r.kind != "ok":
+                        res.fail(f"concurrent refresh raised {r.exc_type}", repr(r.exc))
+                        return
+                w.fire("two_instances_concurrently")
                 continue
             o = await s.do(op)
             if o.kind != "ok":
@@ -118,6 +132,11 @@ def run(plan):
     return res
 
 
+async def _cap(w, coro):
+    from simkit.world import capture
+    return await capture(w, coro)
+
+
 def gen(j, rng, nops):
     version = rng.choice([2, 3])
     props = [c for c in PROP_CAPS if rng.random() < 0.6]
@@ -129,12 +148,18 @@ def gen(j, rng, nops):
         pages = [[[(c, v.hex()) for c, v in recs[:k]], True], [[(c, v.hex()) for c, v in recs[k:]], False]]
     else:
         pages = [[[(c, v.hex()) for c, v in recs], rng.choice([None, False])]]
-    cfg = {"version": version, "msg_id_start": rng.choice([0, 1, 200, 250, 254, 255, rng.randrange(256)]),
-           "caps_pages": pages, "backpressure": rng.random() < 0.25}
+    cfg = {"version": version,
+           # start value of the process-global command counter: small, and just below every power-of-two /
+           # machine-word boundary a bounded counter might wrap at
+           "msg_id_start": rng.choice([0, 1, 200, 250, 254, 255, rng.randrange(256), 65279, 65500, 65533, 65535, 65536,
+                                       2 ** 24 - 3, 2 ** 31 - 5, 2 ** 32 - 4, 2 ** 63 - 2, 2 ** 64 - 3]),
+           "caps_pages": pages, "backpressure": rng.random() < 0.25, "clients": 2}
     ops = [{"op": "caps"}] if rng.random() < 0.8 else []
     while len(ops) < nops:
         r = rng.random()
-        if r < 0.25:
+        if r < 0.05 and version == 2:
+            ops.append({"op": "concurrent"})
+        elif r < 0.25:
             ops.append({"op": "refresh"})
         elif r < 0.32:
             ops.append({"op": "caps"})
